@@ -287,6 +287,37 @@ def _angle_open(cur):
     return cur.count("<") > cur.count(">")
 
 
+def plain_harness(text, sig, harness_sig, call, ret=None, pre_call=""):
+    """Bounded-variant helper: `sig` (e.g. 'bool f(void)') is followed in `text` by contract clauses and the body.  The clauses
+    are removed; the harness `harness_sig` (from there to the end of the text) is replaced by one that ASSUMES every requires
+    clause, calls the function (`call`, result in `ret` if given) and ASSERTS every ensures clause (__CPROVER_return_value -> ret).
+    Clauses using __CPROVER_old are not supported."""
+    a = text.index(sig)
+    i = a + len(sig)
+    clauses_end = i
+    req, ens = [], []
+    while True:
+        m = re.compile(r"\s*(?:/\*.*?\*/\s*)*__CPROVER_(requires|ensures|assigns)\(", re.S).match(text, clauses_end)
+        if not m:
+            break
+        j = m.end(); d = 1; e = j
+        while d:
+            d += text[e] == "("; d -= text[e] == ")"; e += 1
+        if m.group(1) == "requires":
+            req.append(text[j:e - 1])
+        elif m.group(1) == "ensures":
+            ens.append(text[j:e - 1])
+        clauses_end = e
+    if any("__CPROVER_old" in c for c in ens):
+        raise Undecided("plain_harness: a postcondition uses __CPROVER_old")
+    h = text.index(harness_sig)
+    body = ("%s {\n" % harness_sig) + "".join("  __CPROVER_assume(%s);\n" % r for r in req) + pre_call + \
+           ("  %s %s = %s;\n" % (ret[0], ret[1], call) if ret else "  %s;\n" % call) + \
+           "".join('  __CPROVER_assert(%s, "post.%d");\n' % (c.replace("__CPROVER_return_value", ret[1] if ret else "0"), k + 1) for k, c in enumerate(ens)) + \
+           '  __CPROVER_assert(0, "VP_REACH end of harness");\n}\n'
+    return text[:a] + sig + "\n" + text[clauses_end:h] + body
+
+
 def guarded(name, fn, *a, **kw):
     """Build a unit spec; an extraction failure becomes an `error` spec (reported UNDECIDED for
     that unit only) instead of aborting the whole property."""
